@@ -587,7 +587,10 @@ func (w *Writer) Close() error {
 	if w.err == nil {
 		w.err = w.chunkWriter.Close()
 	}
-	if err := w.CodecWriter.Close(); w.err == nil {
+	if w.CodecWriter == nil {
+		// initialize has already recorded errInvalidCodecWriter (or an earlier
+		// error) in w.err. There is nothing to close.
+	} else if err := w.CodecWriter.Close(); w.err == nil {
 		w.err = err
 	}
 
